@@ -9,14 +9,14 @@ from props import progs
 
 ID = "C01"
 MODULE = "PotasscoVerif.Props.C01"
-EXTRA_MODULES = ["PotasscoVerif.Props.C09"]
-THEOREMS = ["PotasscoVerif.C01.C01_write_read", "PotasscoVerif.C01.C01_read_write_read",
+EXTRA_MODULES = ["PotasscoVerif.Props.C09", "PotasscoVerif.Props.C01m"]
+THEOREMS = ["PotasscoVerif.C01m.C01_modes", "PotasscoVerif.C01.C01_write_read", "PotasscoVerif.C01.C01_read_write_read",
             "PotasscoVerif.C01.C01_number_roundtrip", "PotasscoVerif.C01.C01_blanks_skipped", "PotasscoVerif.C01.C01_pos_roundtrip",
             "PotasscoVerif.AspifRT.directive_rt", "PotasscoVerif.AspifRT.stepLoop_rt", "PotasscoVerif.AspifRT.stepsLoop_rt", "PotasscoVerif.AspifRT.header_rt",
             "PotasscoVerif.AspifRT.string_enc", "PotasscoVerif.AspifRT.counted_enc",
             "PotasscoVerif.Decimal.val_printNat", "PotasscoVerif.Decimal.digitRun_append", "PotasscoVerif.C09.C09_transparent"]
-PARTIAL = {"both read modes / buffering": "C01_write_read is about the reader model on the abstract character stream, driven in one go; that the buffered stream shows exactly that "
-           "stream is C09_transparent, and that step-by-step reading delivers the same calls is checked by the correspondence run in both modes, not proved"}
+PARTIAL = {"buffering": "C01_write_read and C01_modes are about the reader model on the abstract character stream; that the buffered stream shows exactly that "
+           "stream is C09_transparent (cited, not composed: the reader model is not written over the buffer model)"}
 BSIZES = (16, 17, 4096)
 RULE = ("seeded valid programs (every directive kind, 1-3 steps, 0-25 directives per step, values from {extremes, 0, +-1, random} of each field's range, "
         "strings of 0..5000 bytes without NUL incl. blanks/newlines/high bytes, empty lists); distinct = distinct call sequences; non-trivial = at least 3 directives")
@@ -27,8 +27,10 @@ LEVEL_TEXT = ("C01_write_read: for EVERY program — any directives of every kin
               "lists/strings of any length below 2^32, strings of any bytes but NUL — the reader model run on what the writer model produces delivers exactly the same calls, without "
               "literals of weight 0, and reports no error; C01_read_write_read: the second formulation (write what was read, read again: identical). Proved by composition: number round "
               "trip (C01_number_roundtrip) → fields → counted lists and length-prefixed strings → every directive kind (directive_rt) → directive loop (stepLoop_rt) → step loop "
-              "(stepsLoop_rt) → header (header_rt). Buffer independence is C09_transparent. Per run: (a) writer model == real AspifOutput bytes, (b) reader model == real AspifInput "
-              "call log in both read modes, (c) the round-trip oracle on the implementation for BUF_SIZE 16/17/4096.")
+              "(stepsLoop_rt) → header (header_rt). C01_modes: for EVERY input text, reading step by step (accept, then parse(Incremental) while more()) gives exactly the "
+              "calls and result of reading in one go — the two loops of the model are those of the code, each compared with its own mode of the real reader. "
+              "Buffer independence is C09_transparent. Per run: (a) writer model == real AspifOutput bytes, (b) one-go reader model == readProgram and step-by-step reader model == "
+              "the real reader driven step by step, (c) the round-trip oracle on the implementation for BUF_SIZE 16/17/4096.")
 LEVEL_NOTE = ("Full proof on the models + correspondence. Models hand-written; model==code checked on ~1.2k (quick) / 40k (thorough) generated programs with every "
               "directive kind, extreme values, multi-step, strings up to 5000 bytes. Trusted: Lean kernel+standard axioms, operator<< decimal printing, harness, generator.")
 
